@@ -17,7 +17,7 @@ THEOREMS = [{'name': f'Props.C01.{n}', 'module': M} for n in [
     {'name': 'Model.refs_of_render', 'module': 'MorphKgc.Lemmas.Template'},
     {'name': 'Model.mem_evalRule_plain', 'module': 'MorphKgc.Lemmas.EvalRule'}]
 # the model functions these theorems are about are EQUAL to the functions translated from /repo's source (Gen/CoreFuncs.lean)
-THEOREMS += [{'name': f'Props.CoreFuncs.{n}', 'module': 'MorphKgc.Props.CoreFuncs'} for n in ['refs_eq', 'materialize_template_eq', 'translated_template_is_substitution', 'rowTriple_eq']]
+THEOREMS += [{'name': f'Props.CoreFuncs.{n}', 'module': 'MorphKgc.Props.CoreFuncs'} for n in ['refs_eq', 'materialize_template_eq', 'translated_template_is_substitution', 'rowTriple_eq', 'refs_of_rule_eq', 'refs_of_rule_subject_eq']]
 RULE = ('abstract documents of the core fragment (1-3 triples maps, 0-3 predicate-object maps with 1-2 predicate/object/graph maps, '
         'constant/template/reference term maps, IRI/blank-node/literal term types, language tags, datatypes, classes, escaped braces) x '
         'CSV tables of 0-5 rows over a Unicode alphabet with NA tokens; each case is evaluated by the real engine, by Model.evalAll on the '
